@@ -112,18 +112,23 @@ def check(run):
             ('fail-while-probing', [['get', 'fail?'], ['is_failed', 'get']], None),
             ('held-probe', [[], ['get', 'is_locked', 'is_failed']], ['get']),
             ('reacquire', [['get']], ['get', 'release']),
+            # fail() by a client whose lock is gone (removed by `cleanup --locks-only` while its task ran: jug/jug.py then calls fail() on a free
+            # name): the lock stays free - of the clients racing for it exactly one wins
+            ('fail-on-free', [['fail', 'is_failed'], ['get'], ['get']], None),
         ]
         if not quick:
             families += [('race3-release', [['get', 'release?'], ['get', 'release?'], ['get']], None),
                          ('fail-release-get', [['get', 'fail?', 'release?'], ['get', 'is_failed'], ['get']], None)]
         for backend in BACKENDS:
             for fam, scripts, pre in families:
+                if fam == 'fail-on-free' and backend == 'dict':
+                    continue    # one process, no operator: nothing removes a lock under a running task (release() has the same precondition there)
                 n = 0
                 for decisions, events, results, other in lockrun.explore_all(backend, scripts, scratch, limit=(400 if quick else 20000), pre=pre):
                     n += 1
                     interleaved = len({d[0] for d in decisions if d[2] == 'prim'}) >= 2
                     run.case((backend, fam, tuple(d[0] for d in decisions)), nontrivial=interleaved)
-                    judge(run, backend, scripts, pre, decisions, events, results, other, drv, fam)
+                    judge(run, backend, scripts, pre, decisions, events, results, other, (None if fam == 'fail-on-free' else drv), fam)   # the model assumes the owner discipline: that family is judged on the real code only
                     if len(run.samples) < 3 and interleaved and fam in ('race2', 'get-release-get') and backend == 'file':
                         run.sample({'backend': backend, 'scripts': scripts, 'schedule': [[d[0], d[2], d[3]] for d in decisions], 'results': results})
                 run.counts['schedules_%s_%s' % (backend, fam)] = n
